@@ -1,6 +1,8 @@
 package main
 
 import (
+	"os"
+	"runtime/debug"
 	"fmt"
 	"time"
 	"go/token"
@@ -460,6 +462,9 @@ func (c *Ctx) run(s *State) (out []*State) {
 				return
 			}
 			if e, ok := r.(evalErr); ok {
+				if os.Getenv("VCGO_TRACE") != "" {
+					debug.PrintStack()
+				}
 				c.Undecided = append(c.Undecided, fmt.Sprintf("contract evaluation: %s", string(e)))
 				out = nil
 				return
@@ -1747,7 +1752,11 @@ func (s *State) modTargets(env *SpecEnv, m string) (out []modTarget, heap bool) 
 		}
 		panic(evalErr(fmt.Sprintf("modifies %q: %v", m, err)))
 	}
-	panic(evalErr(fmt.Sprintf("modifies %q: unsupported location form", m)))
+	var gk []string
+	for k := range s.Ghost {
+		gk = append(gk, k)
+	}
+	panic(evalErr(fmt.Sprintf("modifies %q: unsupported location form (%T; ghosts %v)", m, ex, gk)))
 }
 
 func (s *State) checkFrame(env *SpecEnv, pos string) {
